@@ -139,7 +139,7 @@ def random_history(rnd, t, maxlen=10, profile='mixed'):
         elif k == 'rep':
             if nlive:
                 s = rnd.choice(alpha + [foreign_for(t)]) if rnd.random() < 0.7 else _pick_symbol(rnd, alpha, used, 1.0)
-                hist.append([rnd.choice(['rep', 'rep', 'repf']), rnd.randrange(max(1, nlive)), s])
+                hist.append([rnd.choice(['rep', 'rep', 'repf', 'repi']), rnd.randrange(max(1, nlive)), s])
         elif k == 'set':
             s = _pick_symbol(rnd, alpha, used, 0.5)
             hist.append(['set', s, rnd.choice(['el', 'val', 'none', 'none'])])
@@ -196,7 +196,7 @@ def core_str_then_change(t):
     alpha = ref.DFAS[t].alphabet
     for s in alpha:
         for ic in (False, True):
-            for change in (['rm', 0], ['rep', 0, s], ['repf', 0, s], ['set', s, 'el'], ['set', s, 'none']):
+            for change in (['rm', 0], ['rep', 0, s], ['repf', 0, s], ['repi', 0, s], ['set', s, 'el'], ['set', s, 'none']):
                 yield [['add', s, None], ['str', ic], list(change), ['str', False]]
             for s2 in alpha[:8]:
                 yield [['add', s, None], ['str', ic], ['rm', 0], ['add', s2, None], ['str', False]]
@@ -253,7 +253,7 @@ def core_long(t, length=300, words=2):
         adds = [['add', s, None] for s in w]
         n = len(w)
         yield adds + [['rep', n - 5, w[n - 5]], ['str', False], ['rm', n - 20], ['str', False],
-                      ['repf', n - 30, w[n - 30]], ['repself', n - 12], ['rm', 258], ['str', False]]
+                      ['repf', n - 30, w[n - 30]], ['repi', n - 40, w[n - 40]], ['repself', n - 12], ['rm', 258], ['str', False]]
 
 
 def core_last_twice(t, n):
